@@ -331,7 +331,10 @@ impl Exp {
         match self {
             Exp::BinOp(op, lhs, rhs) => match (op, *lhs, *rhs) {
                 //(a +- b)c = ac +- bc
-                (BinOp::Mul, Exp::BinOp(inner_op @ (BinOp::Add | BinOp::Sub), lhs, rhs), c) => {
+                (BinOp::Mul, Exp::BinOp(inner_op @ (BinOp::Add | BinOp::Sub), lhs, rhs), c)
+                    if !(c.contains_variable()
+                        && (lhs.contains_variable() || rhs.contains_variable())) =>
+                {
                     Exp::BinOp(
                         inner_op,
                         Exp::make_binop(BinOp::Mul, *lhs, c.clone()),
@@ -340,7 +343,10 @@ impl Exp {
                     .flatten()
                 }
                 //c(a +- b) = ac +- bc
-                (BinOp::Mul, c, Exp::BinOp(inner_op @ (BinOp::Add | BinOp::Sub), lhs, rhs)) => {
+                (BinOp::Mul, c, Exp::BinOp(inner_op @ (BinOp::Add | BinOp::Sub), lhs, rhs))
+                    if !(c.contains_variable()
+                        && (lhs.contains_variable() || rhs.contains_variable())) =>
+                {
                     Exp::BinOp(
                         inner_op,
                         Exp::make_binop(BinOp::Mul, c.clone(), *lhs),
@@ -400,6 +406,25 @@ impl Exp {
                 }
             },
             _ => self,
+        }
+    }
+
+    /// Whether a variable occurs anywhere in the expression. A product of two
+    /// such expressions is not linear, so `flatten` leaves it for the linearizer
+    /// to report instead of distributing it (a chain of n sums would otherwise
+    /// be expanded into 2^n terms first).
+    fn contains_variable(&self) -> bool {
+        match self {
+            Exp::Number(_) => false,
+            Exp::Variable(_) => true,
+            Exp::Abs(exp) | Exp::Not(exp) | Exp::UnOp(_, exp) => exp.contains_variable(),
+            Exp::Min(exps) | Exp::Max(exps) | Exp::And(exps) | Exp::Or(exps) => {
+                exps.iter().any(|exp| exp.contains_variable())
+            }
+            Exp::Xor(lhs, rhs) | Exp::Implies(lhs, rhs) | Exp::Iff(lhs, rhs) => {
+                lhs.contains_variable() || rhs.contains_variable()
+            }
+            Exp::BinOp(_, lhs, rhs) => lhs.contains_variable() || rhs.contains_variable(),
         }
     }
 
